@@ -13,6 +13,7 @@ import (
 	"time"
 
 	"github.com/dapr/kit/events/batcher"
+	"github.com/dapr/kit/events/queue"
 
 	"verif/harness/internal/mon"
 )
@@ -46,6 +47,7 @@ type sub struct {
 }
 
 type batchRec struct {
+	placed    bool // issued while a kit goroutine was parked at a hook
 	key       string
 	v         int
 	t         time.Time
@@ -54,26 +56,27 @@ type batchRec struct {
 }
 
 type world struct {
-	idx      int
-	mode     string
-	interval time.Duration
-	b        *batcher.Batcher[string, int]
-	clk      atomic.Int64
-	mu       sync.Mutex
-	subs     []*sub
-	batches  []*batchRec
-	steps    []string
-	nextV    int
-	clean    bool // no stall / placement so far: delivery instants are exact
+	idx                 int
+	mode                string
+	interval            time.Duration
+	b                   *batcher.Batcher[string, int]
+	clk                 atomic.Int64
+	mu                  sync.Mutex
+	subs                []*sub
+	batches             []*batchRec
+	steps               []string
+	nextV               int
+	clean               bool // no stall / placement so far: delivery instants are exact
 	closeCall, closeRet int64
-	closeT   time.Time
-	closeDone chan struct{}
-	viol     bool
+	closeT              time.Time
+	closeDone           chan struct{}
+	viol                bool
 
-	armHook string
-	armN    int
-	parked  atomic.Bool
-	resume  chan struct{}
+	parkStamp int64 // logical stamp at which a kit goroutine parked at the armed hook
+	armHook   string
+	armN      int
+	parked    atomic.Bool
+	resume    chan struct{}
 }
 
 func (w *world) stamp() int64 { return w.clk.Add(1) }
@@ -102,6 +105,9 @@ func (w *world) hook(name string) {
 	w.mu.Unlock()
 	if park {
 		rec.Count("park."+name, 1)
+		w.mu.Lock()
+		w.parkStamp = w.stamp()
+		w.mu.Unlock()
 		w.parked.Store(true)
 		<-w.resume
 	}
@@ -164,7 +170,7 @@ func (w *world) subscribe(kind string, async bool) *sub {
 func (w *world) batch(key string) {
 	w.mu.Lock()
 	w.nextV++
-	r := &batchRec{key: key, v: w.nextV, t: time.Now(), due: time.Now().Add(w.interval), call: w.stamp()}
+	r := &batchRec{key: key, v: w.nextV, t: time.Now(), due: time.Now().Add(w.interval), call: w.stamp(), placed: w.parked.Load()}
 	w.batches = append(w.batches, r)
 	w.mu.Unlock()
 	w.b.Batch(key, r.v)
@@ -265,8 +271,10 @@ func (w *world) judge() {
 			}
 			if b2.t.Before(b.due) {
 				c = never // superseded inside its interval
-			} else if b2.t.Equal(b.due) && c != never {
-				c = optional // same-instant race with its own delivery
+			} else if (b2.t.Equal(b.due) || (b2.placed && b.ret < w.parkStamp)) && c != never {
+				// same-instant race with its own delivery, or the re-batch was issued while the delivery
+				// loop was parked (descheduled) past the old value's due time: either outcome is legal
+				c = optional
 			}
 			break
 		}
@@ -411,6 +419,15 @@ func plans() []plan {
 			}
 		}
 	}
+	for _, h := range []string{"queue.loop.fired", "queue.loop.peeked", "queue.exec.popped"} {
+		for n := 1; n <= 2; n++ {
+			for _, a := range []string{"rebatch-head", "rebatch-other", "batch", "rebatch-head+cancel-first", "close"} {
+				for rep := 0; rep < mon.Pick(3, 40); rep++ {
+					ps = append(ps, plan{mode: "directed", hook: h, n: n, act: a, desc: fmt.Sprintf("%s#%d+%s", h, n, a)})
+				}
+			}
+		}
+	}
 	for _, a := range []string{"cancel", "unleash", "close-then-cancel", "cancel+batch-more", "cancel+subscribe", "close-then-unleash", "batch-more+cancel"} {
 		for rep := 0; rep < mon.Pick(6, 200); rep++ {
 			ps = append(ps, plan{mode: "stall", act: a, desc: "stall+" + a})
@@ -426,7 +443,7 @@ func TestCheck(t *testing.T) {
 	rec = mon.Open("C10")
 	defer rec.Close()
 	rec.Note("rule", "a case is one history against the real Batcher in a synctest bubble: (lockstep) seeded Batch / sleep / Subscribe / cancel / Close sequences on a 1 ms grid with prompt subscribers, judged against the debounce reference including exact delivery instants; (stall) a never-reading subscriber with 52-70 events outstanding (past the 50-slot buffer) while further Batch / Subscribe / Close calls are made, resolved by cancelling or unleashing it; (directed) the delivery loop parked at fanout.send or a forwarder at fwd.exit while cancel / Close / Subscribe / Batch are issued. Non-trivial = at least one value was delivered to a subscriber; distinct = distinct step list.")
-	rec.Note("require", []string{"park.fanout.send", "park.fwd.exit", "judged", "stall.fanout_blocked", "stall.resolved_by_cancel", "stall.resolved_by_unleash", "delivered", "closed_channels_seen"})
+	rec.Note("require", []string{"park.fanout.send", "park.fwd.exit", "park.queue.loop.fired", "park.queue.exec.popped", "judged", "stall.fanout_blocked", "stall.resolved_by_cancel", "stall.resolved_by_unleash", "delivered", "closed_channels_seen"})
 	ps := plans()
 	rec.Planned(len(ps))
 	for idx, pl := range ps {
@@ -446,12 +463,18 @@ func runCase(t *testing.T, idx int, rng *mon.RNG, pl plan) {
 		w.mode = pl.desc
 	}
 	w.interval = []time.Duration{2 * ms, 10 * ms, 100 * ms}[rng.Intn(3)]
+	if strings.HasPrefix(pl.hook, "queue.") && w.interval < 10*ms {
+		w.interval = 10 * ms // the four keys are batched 1 ms apart so that the head is known
+	}
 	rec.Begin(idx, fmt.Sprintf("%s %s interval=%v", pl.mode, pl.desc, w.interval))
 	res := mon.Bubble(t, func() {
 		w.resume = make(chan struct{})
 		h := w.hook
 		batcher.VerifHook.Store(&h)
 		defer batcher.VerifHook.Store(nil)
+		qh := func(name string) { w.hook("queue." + name) }
+		queue.VerifHook.Store(&qh)
+		defer queue.VerifHook.Store(nil)
 		w.b = batcher.New[string, int](w.interval)
 		var cand string
 		switch pl.mode {
@@ -743,10 +766,29 @@ func directed(w *world, rng *mon.RNG, pl plan) string {
 	w.armHook, w.armN = pl.hook, pl.n
 	w.mu.Unlock()
 	// drive: a few keys become due; for fwd.exit a subscriber must leave
-	for i := 0; i < 4; i++ {
-		w.batch(fmt.Sprintf("k%d", i))
+	staggered := strings.HasPrefix(pl.hook, "queue.")
+	nkeys := 4
+	if staggered && strings.HasPrefix(pl.act, "rebatch-head") {
+		// the re-batched key must still be the head afterwards: it is the only key (for the second
+		// hit of the hook, pl.n == 2, the single key goes through two delivery cycles)
+		nkeys = 1
 	}
-	w.step("batch x4")
+	for i := 0; i < nkeys; i++ {
+		w.batch(fmt.Sprintf("k%d", i))
+		if staggered {
+			time.Sleep(ms) // k0 is due first, then k1 ...: the n-th hit of the hook is for k(n-1)
+		}
+	}
+	w.step(fmt.Sprintf("batch x%d", nkeys))
+	if nkeys == 1 && pl.n > 1 {
+		for c := 1; c < pl.n && !w.parked.Load(); c++ {
+			time.Sleep(w.interval + ms)
+			settle()
+			if !w.parked.Load() {
+				w.batch("k0")
+			}
+		}
+	}
 	if pl.hook == "fwd.exit" {
 		time.Sleep(w.interval / 2)
 		for i := 0; i < pl.n && i < len(w.subs)-1; i++ {
@@ -755,8 +797,10 @@ func directed(w *world, rng *mon.RNG, pl plan) string {
 		}
 		settle()
 	} else {
-		time.Sleep(w.interval)
-		settle()
+		for i := 0; i < 8 && !w.parked.Load(); i++ {
+			time.Sleep(w.interval / 4)
+			settle()
+		}
 	}
 	if !w.parked.Load() {
 		return "not-reached"
@@ -779,6 +823,16 @@ func directed(w *world, rng *mon.RNG, pl plan) string {
 			w.subscribe("prompt", true)
 		case "batch":
 			w.batch("placed")
+		case "rebatch-head":
+			// the key whose timer has just fired (or is about to be popped) is batched again:
+			// its new value is due one interval from NOW, the old one is suppressed
+			head := "k0"
+			if staggered && nkeys > 1 {
+				head = fmt.Sprintf("k%d", pl.n-1)
+			}
+			w.batch(head)
+		case "rebatch-other":
+			w.batch("other")
 		}
 		settle()
 	}
